@@ -101,6 +101,7 @@ type invariant struct {
 	tags []string
 	eval func(ex *Exec, fr *Frame, st *State) string
 	kind string // "annotated" | "inferred"
+	sure bool   // syntactically evident (monotone counter): not subject to Houdini
 }
 
 type loopCtx struct {
@@ -385,7 +386,7 @@ func (ex *Exec) enterLoop(fr *Frame, lp *loopRec, reach string, st *State) (stri
 	}
 
 	// ---- candidates for inferred invariants (checked on the pre-state first)
-	cands := ex.inferCandidates(fr, lp, st, cells, pointRefs, fullHavoc)
+	cands := ex.inferCandidates(fr, lp, reach, st, cells, pointRefs, fullHavoc)
 
 	// ---- havoc
 	hst := st.clone()
@@ -443,13 +444,41 @@ func (ex *Exec) enterLoop(fr *Frame, lp *loopRec, reach string, st *State) (stri
 		ex.sc.assert(mkImp(reach, inv.eval(ex, fr, hst)))
 	}
 
-	// ---- Houdini-lite over the candidates
+	// ---- Houdini-lite over the candidates. Lower bounds of counters that the loop
+	// only ever increments are kept without asking (they are still proved as
+	// inv-step obligations of the real run).
+	var sure, rest []invariant
+	for _, c := range cands {
+		if c.sure {
+			sure = append(sure, c)
+		} else {
+			rest = append(rest, c)
+		}
+	}
+	for _, c := range sure {
+		ex.sc.assert(mkImp(reach, c.eval(ex, fr, hst)))
+		lc.invs = append(lc.invs, c)
+	}
+	cands = rest
 	if len(cands) > 0 {
 		cands = ex.houdini(fr, lp, reach, hst, cands)
 		for _, c := range cands {
 			ex.sc.assert(mkImp(reach, c.eval(ex, fr, hst)))
 			lc.invs = append(lc.invs, c)
 		}
+	}
+	// termination bookkeeping (reported in the evidence)
+	if ex.record {
+		kind := "no variant: termination of this loop is not proved"
+		switch {
+		case spec != nil && spec.Decreases != nil:
+			kind = "annotated variant"
+		case ex.loopIsRange(fr, lp):
+			kind = "range loop (finite by construction)"
+		case ex.loopIsCounting(lp, cells):
+			kind = "counting loop (counter only incremented, compared with a loop-invariant bound)"
+		}
+		ex.loopKinds = append(ex.loopKinds, fmt.Sprintf("%s loop %d: %s", shortFn(fr.fn), lp.ordinal, kind))
 	}
 	// variant
 	if spec != nil && spec.Decreases != nil {
@@ -488,7 +517,7 @@ func (ex *Exec) backEdge(fr *Frame, lp *loopRec, cond string, st *State) {
 // ---------------------------------------------------------------------------
 // inference
 
-func (ex *Exec) inferCandidates(fr *Frame, lp *loopRec, st *State, cells []cellKey, pointRefs map[string][]string, fullHavoc map[string]bool) []invariant {
+func (ex *Exec) inferCandidates(fr *Frame, lp *loopRec, reach string, st *State, cells []cellKey, pointRefs map[string][]string, fullHavoc map[string]bool) []invariant {
 	var out []invariant
 	for _, ck := range cells {
 		ck := ck
@@ -502,7 +531,7 @@ func (ex *Exec) inferCandidates(fr *Frame, lp *loopRec, st *State, cells []cellK
 		}
 		if _, _, isInt := intInfo(v.T); isInt && len(v.L) == 1 {
 			init := v.L[0]
-			out = append(out, invariant{kind: "inferred", desc: name + " >= its value at loop entry",
+			out = append(out, invariant{kind: "inferred", desc: name + " >= its value at loop entry", sure: onlyIncremented(lp, ck.a),
 				eval: func(e *Exec, f *Frame, s *State) string { return cellCmp(s, ck, 0, ">=", init) }})
 			out = append(out, invariant{kind: "inferred", desc: name + " <= its value at loop entry",
 				eval: func(e *Exec, f *Frame, s *State) string { return cellCmp(s, ck, 0, "<=", init) }})
@@ -549,7 +578,7 @@ func (ex *Exec) inferCandidates(fr *Frame, lp *loopRec, st *State, cells []cellK
 	// keep only candidates that hold on entry
 	goals := make([][]string, len(out))
 	for i, c := range out {
-		goals[i] = []string{c.eval(ex, fr, st)}
+		goals[i] = []string{mkImp(reach, c.eval(ex, fr, st))}
 	}
 	res := ex.quickProveAll(goals)
 	var kept []invariant
@@ -590,7 +619,12 @@ func (ex *Exec) quickProveAll(groups [][]string) []bool {
 			lines := append([]string{}, base...)
 			lines = append(lines, "(assert (not "+mkAnd(todo...)+"))", "(check-sat)")
 			file := writeQuery("houdini", lines)
-			st, _, _ := runSolver(solvers[0], file, 1)
+			// fixed seed and a generous limit: the inferred set must not depend on
+			// VERIF_SEED or on machine load
+			st, _, _ := runSolverSeed(solvers[0], file, 4, 0)
+			if st != "unsat" && st != "sat" && st != "unknown" {
+				st, _, _ = runSolverSeed(solvers[1], file, 4, 0)
+			}
 			if !keepScratch {
 				removeFile(file)
 			}
@@ -626,7 +660,9 @@ func (ex *Exec) quickProve(goal string) bool {
 }
 
 func (ex *Exec) houdini(fr *Frame, lp *loopRec, reach string, hst *State, cands []invariant) []invariant {
-	for round := 0; round < 6 && len(cands) > 0; round++ {
+	confirmed := false
+	maxRounds := len(cands) + 2
+	for round := 0; round < maxRounds && len(cands) > 0; round++ {
 		t := ex.cloneForTrial()
 		tf := fr.cloneRegs()
 		ts := hst.clone()
@@ -636,6 +672,16 @@ func (ex *Exec) houdini(fr *Frame, lp *loopRec, reach string, hst *State, cands 
 		backs := t.runLoopBody(tf, lp, reach, ts)
 		var kept []invariant
 		dropped := false
+		// guard: if the solver claims that no back edge is reachable under the
+		// assumed candidates, every candidate is vacuously "preserved" (contradictory
+		// candidate set, or an unreliable answer): infer nothing for this loop
+		var anyBack []string
+		for _, b := range backs {
+			anyBack = append(anyBack, b.cond)
+		}
+		if len(backs) == 0 || t.quickProveAll([][]string{{mkNot(mkOr(anyBack...))}})[0] {
+			return nil
+		}
 		groups := make([][]string, len(cands))
 		for i, c := range cands {
 			for _, b := range backs {
@@ -643,6 +689,11 @@ func (ex *Exec) houdini(fr *Frame, lp *loopRec, reach string, hst *State, cands 
 			}
 		}
 		res := t.quickProveAll(groups)
+		if os.Getenv("GOVC_DEBUG") != "" {
+			for i, c := range cands {
+				fmt.Fprintf(os.Stderr, "houdini %s#%d round %d: %-40s backs=%d proved=%v\n", shortFn(fr.fn), lp.ordinal, round, c.desc, len(backs), res[i])
+			}
+		}
 		for i, c := range cands {
 			if res[i] {
 				kept = append(kept, c)
@@ -652,8 +703,12 @@ func (ex *Exec) houdini(fr *Frame, lp *loopRec, reach string, hst *State, cands 
 		}
 		cands = kept
 		if !dropped {
+			confirmed = true
 			break
 		}
+	}
+	if !confirmed {
+		return nil // never assume a candidate set that was not confirmed as a whole
 	}
 	return cands
 }
@@ -771,6 +826,13 @@ func (ex *Exec) guardCandidates(fr *Frame, lp *loopRec, st *State, cells []cellK
 				}
 				seen[key] = true
 				nm := a.Comment
+				if nm == "rangeindex" && bo.Op.String() == "<" && side == 0 {
+					// the hidden index of a range loop: -1 <= rangeindex <= len-1 (proved as obligations)
+					out = append(out, invariant{kind: "inferred", desc: "rangeindex <= len-1", sure: true,
+						eval: func(e *Exec, f *Frame, s *State) string {
+							return cellCmp(s, ck, 0, "<=", mkSub(bt, "1"))
+						}})
+				}
 				for _, d := range []int64{0, 1} {
 					d := d
 					out = append(out, invariant{kind: "inferred", desc: fmt.Sprintf("%s <= bound%+d", nm, d),
@@ -881,4 +943,80 @@ func splitSexp(s string) []string {
 		out = append(out, s[start:])
 	}
 	return out
+}
+
+// onlyIncremented: every store to the cell inside the loop writes cell + positive constant.
+func onlyIncremented(lp *loopRec, a *ssa.Alloc) bool {
+	n := 0
+	for b := range lp.blocks {
+		for _, ins := range b.Instrs {
+			st, ok := ins.(*ssa.Store)
+			if !ok || rootAlloc(st.Addr) != a {
+				continue
+			}
+			if st.Addr != ssa.Value(a) {
+				return false
+			}
+			n++
+			bo, ok := st.Val.(*ssa.BinOp)
+			if !ok || bo.Op.String() != "+" {
+				return false
+			}
+			ld, ok := bo.X.(*ssa.UnOp)
+			if !ok || ld.Op.String() != "*" || ld.X != ssa.Value(a) {
+				return false
+			}
+			c, ok := bo.Y.(*ssa.Const)
+			if !ok {
+				return false
+			}
+			if v, ok := constBig(c); !ok || v.Sign() <= 0 {
+				return false
+			}
+		}
+	}
+	return n > 0
+}
+
+func (ex *Exec) loopIsRange(fr *Frame, lp *loopRec) bool {
+	for b := range lp.blocks {
+		for _, ins := range b.Instrs {
+			if _, ok := ins.(*ssa.Next); ok {
+				return true
+			}
+			if st, ok := ins.(*ssa.Store); ok {
+				if a, ok := st.Addr.(*ssa.Alloc); ok && a.Comment == "rangeindex" {
+					return true
+				}
+			}
+		}
+	}
+	return false
+}
+
+func (ex *Exec) loopIsCounting(lp *loopRec, cells []cellKey) bool {
+	// the header's exit test compares an only-incremented cell with a value defined outside the loop
+	last := lp.header.Instrs[len(lp.header.Instrs)-1]
+	iff, ok := last.(*ssa.If)
+	if !ok {
+		return false
+	}
+	bo, ok := iff.Cond.(*ssa.BinOp)
+	if !ok || (bo.Op.String() != "<" && bo.Op.String() != "<=" && bo.Op.String() != "!=") {
+		return false
+	}
+	ld, ok := bo.X.(*ssa.UnOp)
+	if !ok {
+		if cv, ok2 := bo.X.(*ssa.Convert); ok2 {
+			ld, ok = cv.X.(*ssa.UnOp)
+		}
+	}
+	if !ok || ld == nil {
+		return false
+	}
+	a, ok := ld.X.(*ssa.Alloc)
+	if !ok || !onlyIncremented(lp, a) {
+		return false
+	}
+	return true
 }
